@@ -212,6 +212,7 @@ func runM(t *testing.T, ch *vs.Choices, prop, tier string, render bool) *vs.RunO
 		}()
 		synctest.Test(t, func(t *testing.T) {
 			sim := vs.NewSim(ch)
+			sim.Strip = dir
 			sim.KeepLog = render
 			sim.Strategy = vs.NewStrategy(ch, nil)
 			out.Strategy = sim.Strategy.Name()
